@@ -180,11 +180,41 @@ def finish(prop, tier, seed, plan, units, results, t0):
                 continue
             seen.add(o.name)
             info = rp.replay_obligation(prop, o, plan)
+            if getattr(o, "unconfirmed", False) and not info.get("reproduced"):
+                # refuted only by the second back end (no model) and not confirmed on the real code: undecided
+                undecided.append(f"{o.name}: cvc5 reports a counter-model but none could be replayed on the real code")
+                continue
             path = os.path.join(rdir, safe_name(o.name) + ".json")
             with open(path, "w") as f:
                 json.dump(info, f, indent=1, default=repr)
             tail = "" if info.get("reproduced") else " no-failing-input-found"
             vio_lines.append(f"VIOLATION property={prop} replay={path}{tail}")
+
+    # obligations the solvers left undecided: a failing input found natively on the real code still is a violation
+    # (the obligation was discharged on the unchanged tree, no longer is, and a concrete input fails)
+    still_unknown = []
+    seen_u = set()
+    for o in unknown:
+        if o.name in seen_u:
+            continue
+        seen_u.add(o.name)
+        info = None
+        if plan.replayers.get(o.unit) is not None or plan.unit_contracts.get(o.unit) is not None:
+            try:
+                info = rp.replay_obligation(prop, o, plan)
+            except Exception:  # noqa
+                info = None
+        if info and info.get("reproduced"):
+            os.makedirs(rdir, exist_ok=True)
+            info["note"] = (info.get("note", "") + " obligation left undecided by z3 and cvc5 (" + o.detail[-160:] +
+                            "); failing input found by native search").strip()
+            path = os.path.join(rdir, safe_name(o.name) + ".json")
+            with open(path, "w") as f:
+                json.dump(info, f, indent=1, default=repr)
+            vio_lines.append(f"VIOLATION property={prop} replay={path}")
+        else:
+            still_unknown.append(o)
+    unknown = still_unknown
 
     wall = time.time() - t0
     status = 0
